@@ -89,3 +89,13 @@ Fixpoint canonical (s : string) : bool :=
   | String c EmptyString => Ascii.eqb c LF
   | String c s' => negb (Ascii.eqb c LF) && canonical s'
   end.
+
+Fixpoint ends_lf (s : string) : bool :=
+  match s with
+  | EmptyString => false
+  | String c EmptyString => Ascii.eqb c LF
+  | String _ r => ends_lf r
+  end.
+
+(* the last line of a file: a canonical line, or a non-empty line without LF *)
+Definition last_ok (l : string) : bool := canonical l || (no_char LF l && negb (String.eqb l "")).
